@@ -2,7 +2,7 @@ SPEC = dict(
     id="C08",
     bin="c08",
     coq_dir="C08",
-    coq_targets=["C08/Proofs.vo", "C08/Examples.vo"],
+    coq_targets=["C08/Proofs.vo", "C08/Iter4.vo", "C08/Fits4.vo", "C08/Var14.vo", "C08/Examples.vo"],
     allowed_axioms=[],
     level_text=("Unbounded Coq theorems (all finite mappings over U+0000..U+10FFFF to 16-bit non-zero glyph ids, all code points) about an "
                 "executable model of write-fonts Cmap::from_mappings (sort, dedup, conflict detection, Format4SegmentComputer with its "
